@@ -2,6 +2,7 @@ package rules
 
 import (
 	"go/ast"
+	"go/constant"
 	"go/token"
 	"go/types"
 	"strings"
@@ -13,6 +14,9 @@ func init() {
 	register(&core.Rule{ID: "T1", Min: 8,
 		Doc: "Trailing rule: every API entry point that consumes one JSON value (alg.Valid, frozenConfig.UnmarshalFromString, ast._ValidSyntax, ast.NewRaw, ast.NewRawConcurrentRead, Searcher.getByPath) reaches, on its success path after the consuming call, a trailing check (space-mask loop up to len; CheckTrailings returned; skipBlank == -ERR_EOF) whose failure is reported; Decoder.CheckTrailings returns nil only under pos == len(buf). Validating native: Valid uses ValidateOne; Parser.skip / api.Skip call SkipOne with a constant-zero flag word (F_NO_VALIDATE cannot be set), never SkipOneFast.",
 		Run: runT1})
+	register(&core.Rule{ID: "V1", Min: 1, Arm64: true,
+		Doc: "String contents are validated where validity is promised: alg.Valid (sonic.Valid, encoder.Valid and the check applied to json.Marshaler output) calls native.ValidateOne with a constant flag word that includes F_VALIDATE_STRING; without it the native scanner only searches for the closing quote, so control characters and malformed escapes inside a string pass.",
+		Run: runV1})
 	register(&core.Rule{ID: "W6", Min: 9,
 		Doc: "Entry-point equivalence as call structure: sonic.Marshal/MarshalString/MarshalIndent/Unmarshal/UnmarshalString/Valid/ValidString each delegate to the corresponding method of ConfigDefault with their arguments in order; frozenConfig.Unmarshal delegates to UnmarshalFromString; frozenConfig.Valid to encoder.Valid; ConfigDefault is Config{}.Froze().",
 		Run: runW6})
@@ -243,13 +247,68 @@ func runT1(c *core.Ctx) {
 			c.Bad(cn, fd.Pos(), "also calls native.%s", other)
 		default:
 			v, ok := p.ConstInt(found.Args[len(found.Args)-1])
-			if ok && v == 0 {
-				c.OK(cn, found.Pos(), "native.%s with flag word 0", r.native)
-			} else {
-				c.Bad(cn, found.Pos(), "native.%s is called with a flag word that is not the constant 0 (%s): NO_VALIDATE may be set", r.native, exprStr(found.Args[len(found.Args)-1]))
+			nv, ok2 := constIntOf(p, "internal/native/types", "B_NO_VALIDATE_JSON")
+			vs, ok3 := constIntOf(p, "internal/native/types", "B_VALIDATE_STRING")
+			switch {
+			case !ok2 || !ok3:
+				c.Undecided(cn, found.Pos(), "types.B_NO_VALIDATE_JSON / B_VALIDATE_STRING not found")
+			case !ok:
+				c.Bad(cn, found.Pos(), "native.%s is called with a flag word that is not a constant (%s): NO_VALIDATE may be set", r.native, exprStr(found.Args[len(found.Args)-1]))
+			case v&(1<<uint(nv)) != 0:
+				c.Bad(cn, found.Pos(), "native.%s is called with the NO_VALIDATE_JSON bit set (%s)", r.native, exprStr(found.Args[len(found.Args)-1]))
+			case v&^(1<<uint(vs)) != 0:
+				c.Bad(cn, found.Pos(), "native.%s is called with flag word %#x: only VALIDATE_STRING is a known strictness-preserving flag", r.native, v)
+			default:
+				c.OK(cn, found.Pos(), "native.%s with constant flag word %#x (NO_VALIDATE_JSON clear)", r.native, v)
 			}
 		}
 	}
+}
+
+func runV1(c *core.Ctx) {
+	p := c.Prog
+	pk := p.Pkg("internal/encoder/alg")
+	fd := core.FuncDecl(pk, "", "Valid")
+	cn := "internal/encoder/alg.Valid/validates-string-contents"
+	if fd == nil {
+		c.Undecided(cn, token.NoPos, "not found")
+		return
+	}
+	c.Analysed(core.FuncName(pk, fd))
+	vs, ok3 := constIntOf(p, "internal/native/types", "B_VALIDATE_STRING")
+	n := 0
+	ast.Inspect(fd.Body, func(nd ast.Node) bool {
+		call, ok := nd.(*ast.CallExpr)
+		if !ok {
+			return true
+		}
+		o := p.Callee(call)
+		if o == nil || o.Pkg() == nil || core.Rel(o.Pkg().Path()) != "internal/native" || o.Name() != "ValidateOne" {
+			return true
+		}
+		n++
+		v, ok := p.ConstInt(call.Args[len(call.Args)-1])
+		if !ok || !ok3 {
+			c.Undecided(cn, call.Pos(), "flag word %s is not a constant", exprStr(call.Args[len(call.Args)-1]))
+			return true
+		}
+		c.Check(v&(1<<uint(vs)) != 0, cn, call.Pos(),
+			"flag word includes F_VALIDATE_STRING: control characters and malformed escapes inside strings are rejected",
+			"native.ValidateOne is called without F_VALIDATE_STRING: the scanner then only searches for the closing quote, so `\"\\x\"`, `\"\\u12\"` or a raw newline inside a string pass Valid and the json.Marshaler output check")
+		return true
+	})
+	if n == 0 {
+		c.Undecided(cn, fd.Pos(), "no call of native.ValidateOne in Valid")
+	}
+}
+
+func constIntOf(p *core.Program, rel, name string) (int64, bool) {
+	k, ok := core.Obj(p.Pkg(rel), name).(*types.Const)
+	if !ok {
+		return 0, false
+	}
+	v, exact := constant.Int64Val(constant.ToInt(k.Val()))
+	return v, exact
 }
 
 func runW6(c *core.Ctx) {
